@@ -25,8 +25,14 @@ class Check(EngineCheck):
                 "LLBuild.Refine.EngineImpl_sound_C05_failure_returns_zero", "LLBuild.Refine.EngineImpl_sound_C05_persisted_only_completed",
                 "LLBuild.Refine.EngineImpl_sound_C05_later_builds_clean", "LLBuild.Refine.EngineImpl_sound_C05_later_builds_clean_after_restart",
                 "LLBuild.Refine.EngineImpl_sound_C05_no_callback_after_return", "LLBuild.Refine.C05_no_token_characterisation",
-                "LLBuild.Refine.runBuildA_cancel_then_work_dec"]
-    mix = [(0.6, {"cancel": True}), (0.15, {"cancel": True, "threads": True}), (0.15, {"cancel": True, "cyclic": True}), (0.1, {"foreign_cancel": True})]
+                "LLBuild.Refine.runBuildA_cancel_then_work_dec",
+                # every op kind in one history theorem, injected database write failures included (Props/EngineImplAll.lean)
+                "LLBuild.Refine.EngineImpl_sound_all", "LLBuild.Refine.EngineImpl_sound_fail", "LLBuild.Refine.EngineImpl_sound_fail_quiescent",
+                "LLBuild.Refine.EngineImpl_sound_all_of_fail", "LLBuild.Refine.EngineImpl_sound_crash_of_all", "LLBuild.Refine.crashedBuildF_refines", "LLBuild.Refine.refinement_opF"]
+    mix = [(0.5, {"cancel": True}), (0.15, {"cancel": True, "threads": True}), (0.15, {"cancel": True, "cyclic": True}), (0.1, {"foreign_cancel": True}),
+           # injected database write failures: the engine reports the error, cancels and fails the build (with and without a
+           # cancellation of our own on top); later builds must be clean
+           (0.1, {"dbfail": True, "cancel": True})]
     budget = (350, 3500)
     assumptions = EngineCheck.assumptions + [
         "termination after cancellation ('never hangs'): a theorem for the transliterated engine (EngineImpl_terminates_async, under the size condition); on the real engine it is additionally watched by the harness watchdog with cancellation delivered at hook points, inside callbacks and from a foreign thread",
